@@ -78,7 +78,7 @@ m = dict(
     hooks=dict(guard="ethereum_ssz_verif", enable="none needed: the checks observe the public API of the crate built from /repo's working tree; no hook commits exist",
                baseline_off_cmd="cd /repo && cargo test --workspace --no-fail-fast --offline", source_commits=[], add_only=True),
     engines=[dict(name="coq-model+correspondence", path="/verif/check", serves_properties=sorted(CLAIMS),
-                  kind_free_text="Coq 8.16 proofs (coq/theories, property theorems in coq/theories/Properties) over a hand-written Gallina model; the model is extracted to OCaml (ocaml/driver) and run against a Rust harness (harness/) rebuilt from /repo on every check; rs2v/ re-derives 18 core functions from the Rust text on every check and GenEquiv.v proves them equal to the model; srcmap.py pins every source item to the model definition that transcribes it")],
+                  kind_free_text="Coq 8.16 proofs (coq/theories, property theorems in coq/theories/Properties) over a hand-written Gallina model; the model is extracted to OCaml (ocaml/driver) and run against a Rust harness (harness/) rebuilt from /repo on every check; rs2v/ re-derives the codec core, the bitfield files, the leaf / collection impls (from source text), the tuple and BTreeMap impls (from rustc's expansion of the crate) and the derive output for sample definitions (from rustc's expansion of derive_samples/) into Generated.v / GeneratedDerive.v on every check, and GenEquiv*.v / GenProps*.v prove them equal to the model for every input; srcmap.py pins every source item to the model definition that transcribes it")],
     checks=checks,
     notes="Six genuine defects were found by these checks and repaired by fix: commits in /repo (known_findings.json). VERIF_SEED seeds the single PRNG stream; VERIF_TIER or --tier selects quick/thorough.",
     not_applicable=[dict(property_id=k, reason=v) for k, v in NA.items() if k not in CLAIMS],
